@@ -284,8 +284,12 @@ func (fx *Fx) loaded(st *State, v Val) Val {
 	if fx.inQuant == 0 && strings.HasPrefix(v.S, "Seq_") {
 		st.assume(app("<=", "0", fx.seqLen(v)))
 	}
-	if fx.inQuant == 0 && v.S == SInt && isUnsigned64(v.T) {
-		st.assume(and(app("<=", "0", v.X), app("<=", v.X, "18446744073709551615")))
+	if fx.inQuant == 0 && v.S == SInt && v.T != nil {
+		if b, ok := v.T.Underlying().(*types.Basic); ok && b.Info()&types.IsInteger != 0 && !isUntyped(v.T) {
+			if lo, hi := intRange(b); lo != "" {
+				st.assume(and(app("<=", lo, v.X), app("<=", v.X, hi)))
+			}
+		}
 	}
 	return v
 }
@@ -475,6 +479,10 @@ func (fx *Fx) derefLoc(st *State, p Val) *Loc {
 	if p.Root != "" {
 		l := &Loc{kind: locCell, key: p.Root, ref: p.X, T: p.PT}
 		for _, f := range p.Path {
+			if strings.HasPrefix(f, "#") {
+				l = &Loc{kind: locElem, base: l, idx: f[1:], T: elemType(l.T)}
+				continue
+			}
 			ft := fieldType(l.T, f)
 			l = &Loc{kind: locField, base: l, field: f, T: ft}
 		}
@@ -502,8 +510,12 @@ func (fx *Fx) addrOf(st *State, l *Loc) Val {
 	// walk up to the root cell collecting the field path
 	var path []string
 	cur := l
-	for cur.kind == locField {
-		path = append([]string{cur.field}, path...)
+	for cur.kind == locField || cur.kind == locElem {
+		if cur.kind == locElem {
+			path = append([]string{"#" + cur.idx}, path...)
+		} else {
+			path = append([]string{cur.field}, path...)
+		}
 		cur = cur.base
 	}
 	if cur.kind != locCell {
